@@ -1,4 +1,6 @@
 """C09 - after each event the interpreter is quiescent and its dispatch index is exact."""
+import json
+
 from harness import p_v2judge
 
 LEVEL = "model_checking"
@@ -12,6 +14,21 @@ def run(ctx):
     nprog = 120 if ctx.quick else 1500
     kw = {} if ctx.quick else {"walks": 10, "walk_len": 30, "max_traces": 80}
     traces, errors, srcs, ntests = p_v2judge.collect(ctx, nprog, explore_kw=kw)
+    # ColangSM: specification-level exploration of all histories (bounded) with binding to the real interpreter
+    from harness import colangsm
+    csm = colangsm.explore(ctx, 60 if ctx.quick else 400, 3 if ctx.quick else 4, 1)
+    ctx.log("ColangSM: %d programs in the fragment (%d outside), %d spec states / %d transitions, %d states replayed, drift %d, spec-level invariant violations %d" % (
+        csm["programs"], csm["outside_fragment"], csm["states"], csm["transitions"], csm["compared"], csm["drift"], len(csm["spec_violations"])))
+    for d in csm["drift_samples"][:3]:
+        print("DRIFT C09 ColangSM vs interpreter: %s" % json.dumps(d, default=str)[:1500])
+    ctx.drift += csm["drift"]
+    if csm["errors"]:
+        raise RuntimeError("ColangSM: TLC failed on %d programs: %s" % (len(csm["errors"]), csm["errors"][0]))
+    for sv in csm["spec_violations"]:
+        ctx.note("ColangSM design-level counterexample to %s (program follows)\n%s\n%s" % (sv["invariant"], sv["program"], sv["counterexample"][:1500]))
+    for t in csm["traces"]:
+        srcs.setdefault(t["origin"], "")
+    traces += csm["traces"]
     steps = sum(len(t["steps"]) for t in traces)
     ctx.log("%d traces / %d recorded states (%d from the repository's tests), %d escaping exceptions" % (len(traces), steps, ntests, len(errors)))
     verdicts, stats = p_v2judge.judge(ctx, traces)
@@ -31,7 +48,9 @@ def run(ctx):
              "sig": {"clause": "exception", "error_type": e["error"].split(":")[0], "origin_class": e["origin"].split(":")[0]}})
     nontrivial = len(set((t["origin"], tuple(p_v2judge.events_of(t))) for t in traces if len(t["steps"]) >= 3))
     return {"level": LEVEL, "coverage": {
-        "states": stats["states"], "transitions": stats["transitions"], "traces_validated_against_impl": len(traces),
+        "states": stats["states"] + csm["states"], "transitions": stats["transitions"] + csm["transitions"], "traces_validated_against_impl": len(traces),
+        "colangsm": {k: csm[k] for k in ("programs", "outside_fragment", "states", "transitions", "compared", "drift")},
+        "colangsm_design_invariants": {"checked": list(colangsm.INVARIANTS), "violated": sorted(set(v["invariant"] for v in csm["spec_violations"]))},
         "evaluations": steps, "distinct_nontrivial": nontrivial,
         "rule": "recorded State after every run_to_completion of: %d generated programs (exhaustive histories to depth 2 + seeded random walks with "
                 "action Started/Finished events early/late/twice/never, both tie-break picks), nested and/or formula programs, library-based programs, "
@@ -41,7 +60,7 @@ def run(ctx):
         "exhaustive": False, "test_traces": ntests,
     }, "assumptions": [
         "the projection (harness/colang2.project_state) is trusted; the from-scratch scan is computed by TLC from the projected heads",
-        "exhaustive exploration of all histories at specification level is the job of ColangSM (when the program is in its fragment)",
+        "ColangSM (slice 1: no actions / activation / parameters / priorities) explores all histories <= 3 (thorough 4) x both picks at specification level; programs outside the fragment are covered by recorded walks only",
     ]}
 
 
